@@ -1573,3 +1573,152 @@ func c02WalkOrderSorted(c *Ctx) {
 		}
 	}
 }
+
+// c03IndexAccumulates (INDEX-ACCUMULATES; C03/C04): the per-package indexes (package -> nested name -> element) are
+// filled file by file, and a package is usually spread over several files. Installing a *fresh* inner map for a
+// package is right only when the package has none yet: the store of a newly made map into the outer map must lie on
+// the "absent" edge of a comma-ok lookup of the same key in the same map. An unconditional (or differently
+// conditioned) install wipes what earlier files of the package contributed, and every element they declared is then
+// reported as deleted although nothing changed - a compatible change (adding an enum-only file) gets reported.
+func c03IndexAccumulates(c *Ctx, rule string) {
+	c.Rule(rule, "a fresh inner map is installed for a package only when the package has none yet", 3)
+	p := c.P
+	pk := p.Pkg("private/bufpkg/bufprotosource")
+	if pk == nil {
+		c.Fail(rule, "anchor", token.NoPos, "bufprotosource not found")
+		return
+	}
+	same := func(a, b ssa.Value) bool {
+		a, b = stripConv(a), stripConv(b)
+		if a == b {
+			return true
+		}
+		ca, ok1 := a.(*ssa.Call)
+		cb, ok2 := b.(*ssa.Call)
+		if ok1 && ok2 && ca.Call.IsInvoke() && cb.Call.IsInvoke() && ca.Call.Method == cb.Call.Method && ca.Call.Value == cb.Call.Value && len(ca.Call.Args) == 0 {
+			return true
+		}
+		return false
+	}
+	n := 0
+	for _, sf := range p.SSAFuncsOf([]*packages.Package{pk}) {
+		for _, f := range allSSAFuncs(sf) {
+			for _, b := range f.Blocks {
+				for _, ins := range b.Instrs {
+					mu, ok := ins.(*ssa.MapUpdate)
+					if !ok {
+						continue
+					}
+					if _, fresh := stripConv(mu.Value).(*ssa.MakeMap); !fresh {
+						continue
+					}
+					if mt, ok := mu.Map.Type().Underlying().(*types.Map); !ok || !isTwoLevelStringMap(mt) {
+						continue
+					}
+					n++
+					guarded := false
+					for _, ge := range guardingEdges(b) {
+						cv, pos := condPolarity(ge.If.Cond)
+						ex, ok := cv.(*ssa.Extract)
+						if !ok || ex.Index != 1 || ge.Branch == pos {
+							continue // need the edge on which ok is false
+						}
+						lk, ok := ex.Tuple.(*ssa.Lookup)
+						if !ok || !lk.CommaOk {
+							continue
+						}
+						if sameMapValue(lk.X, mu.Map) && same(lk.Index, mu.Key) {
+							guarded = true
+						}
+					}
+					c.Ob(rule, fmt.Sprintf("%s/install#%d", ssaFuncName(f), n), mu.Pos(), guarded, true, "the fresh inner map is stored on the absent edge of a lookup of the same key: %v", guarded)
+				}
+			}
+		}
+	}
+	if n == 0 {
+		c.Fail(rule, "anchor", token.NoPos, "no install of a fresh inner map into a two-level index found")
+	}
+}
+
+// sameMapValue: the same map value, directly or as two loads of the same cell (a map captured by a closure).
+func sameMapValue(a, b ssa.Value) bool {
+	if a == b {
+		return true
+	}
+	ua, ok1 := a.(*ssa.UnOp)
+	ub, ok2 := b.(*ssa.UnOp)
+	return ok1 && ok2 && ua.Op == token.MUL && ub.Op == token.MUL && ua.X == ub.X
+}
+
+// c04SiblingSkipGuards (SIBLING-SKIP-GUARDS): the FILE/PACKAGE, WIRE_JSON and WIRE variants of one check differ in
+// *what* they compare, not in *which fields they look at*: FILE => PACKAGE => WIRE_JSON => WIRE holds only if a field
+// skipped by a stricter category's handler is skipped by the laxer ones too, and conversely. The guards that make a
+// field handler return without comparing (tests of IsMapEntry() on the previous and the current containing message)
+// must be the same expression in all handlers that have one: `prev && cur` in one and `prev || cur` in another makes
+// WIRE report where WIRE_JSON is silent.
+func c04SiblingSkipGuards(c *Ctx, rule string) {
+	c.Rule(rule, "the map-entry skip guard is the same expression in every sibling handler", 3)
+	p := c.P
+	pk := p.Pkg(pkgCheckHandle)
+	if pk == nil {
+		c.Fail(rule, "anchor", token.NoPos, "handler package not found")
+		return
+	}
+	type site struct {
+		fn   string
+		expr string
+		pos  token.Pos
+	}
+	var sites []site
+	for _, fr := range p.FuncsOf(pk) {
+		if fr.Decl.Body == nil {
+			continue
+		}
+		ast.Inspect(fr.Decl.Body, func(n ast.Node) bool {
+			ifs, ok := n.(*ast.IfStmt)
+			if !ok {
+				return true
+			}
+			s := exprString(ifs.Cond)
+			if strings.Count(s, "IsMapEntry()") < 2 {
+				return true
+			}
+			// a skip guard: the body returns nil
+			skips := false
+			for _, st := range ifs.Body.List {
+				if r, ok := st.(*ast.ReturnStmt); ok && classifyReturn(pk.TypesInfo, r) == retNil {
+					skips = true
+				}
+			}
+			if skips {
+				sites = append(sites, site{declName(fr.Decl), normaliseGuard(s), ifs.Pos()})
+			}
+			return true
+		})
+	}
+	if len(sites) < 3 {
+		c.Fail(rule, "anchor", token.NoPos, "only %d map-entry skip guards found in the handlers", len(sites))
+		return
+	}
+	count := map[string]int{}
+	for _, s := range sites {
+		count[s.expr]++
+	}
+	major, best := "", 0
+	for e, k := range count {
+		if k > best {
+			major, best = e, k
+		}
+	}
+	for _, s := range sites {
+		c.Ob(rule, s.fn, s.pos, s.expr == major, true, "skip guard `%s` (the %d sibling handlers agree on `%s`)", s.expr, best, major)
+	}
+}
+
+// normaliseGuard renames the receiver variables so that guards over differently named locals compare equal.
+func normaliseGuard(s string) string {
+	s = strings.ReplaceAll(s, "previousDescriptor", "P")
+	s = strings.ReplaceAll(s, "descriptor", "C")
+	return strings.Join(strings.Fields(s), " ")
+}
